@@ -281,6 +281,91 @@ def d35():
   return None if len(b.constraints) == len(a.constraints) else 'ADevice round trip: %d constraints become %d' % (len(a.constraints), len(b.constraints))
 
 
+def d36():
+  ds = DeviceSet('root', [Device('a', 2, [(1, 1), (2, 2)]), Device('b', 2, [(0, 0), (3, 3)])], sbounds=[(2, 3), (6, 7)])
+  try:
+    (s, o) = device_kit.solve(ds, 0)
+  except device_kit.OptimizationException:
+    return None
+  return 'solve returned %s for an infeasible all-fixed model (aggregate bound (2,3) violated by the only flow)' % np.array(s).tolist()
+
+
+def d37():
+  d = IDevice('i', 2, (0, 2), a=0, b=1, c=1)
+  try:
+    h = d.hess(np.array([2., 1.]), 0)
+  except ZeroDivisionError:
+    return 'IDevice(b=1, a=0).hess at the upper bound raises ZeroDivisionError (second derivative of a linear curve is 0)'
+  return None if np.allclose(h, 0) else 'hess %s' % h
+
+
+def d38():
+  try:
+    TwoRatioMFDeviceSet(Device('d', 3, (0, 2)), ['e', 'h'], None)
+  except ValueError:
+    return None
+  return 'TwoRatioMFDeviceSet(ratios=None) is accepted; its constraints then raise TypeError'
+
+
+def d39():
+  out = []
+  for cb in [(1, 4, 0, 5), (1, 4, -1, 2), (1, 4, 2, 1)]:
+    try:
+      d = Device('d', 3, (0, 2), [cb])
+      try:
+        [c['jac'](np.ones(3)) for c in d.constraints]
+      except Exception as e:
+        out.append('%s accepted, jac raises %s' % (cb, type(e).__name__))
+    except ValueError:
+      pass
+  return None if not out else 'cumulative bound with a range outside the horizon: ' + '; '.join(out)
+
+
+def d40():
+  try:
+    g = GDevice('g', 3, (-5, 0), cost_coeffs=[[1, 1, 0], [2, 1, 0]])
+  except ValueError:
+    return None
+  try:
+    g.cost(np.array([-1., -1., -1.]), 0)
+  except Exception as e:
+    return 'GDevice with 2 coefficient rows for 3 slots is accepted; cost raises %s' % type(e).__name__
+  return None
+
+
+def d41():
+  g = GDevice('g', 3, (-5, 0))
+  try:
+    c = g.cost(np.array([-1., -1., -1.]), 1.0); d = g.deriv(np.array([-1., -1., -1.]), 1.0); h = g.hess(np.array([-1., -1., -1.]))
+  except TypeError as e:
+    return 'GDevice without cost_coeffs is accepted; cost/deriv/hess raise TypeError'
+  return None if (c == -3.0 and np.array(d).size == 3 and np.array(h).shape == (3, 3)) else 'unexpected %s %s' % (c, d)
+
+
+def d42():
+  try:
+    d = CDevice2('c', 4, (0, 2), [(1, 3, 0, 2), (1, 3, 2, 4)], p_l=[-2, -3, -1.5, -2], p_h=-1)
+  except ValueError:
+    return None
+  try:
+    d.deriv(np.ones(4), 0)
+  except Exception as e:
+    return 'CDevice2 with vector slopes is accepted; deriv raises %s' % type(e).__name__
+  return None
+
+
+def d43():
+  try:
+    d = CDevice2('c', 4, (0, 2), [(1, 3, 0, 1), (1, 3, 1, 3)])
+  except ValueError:
+    return None
+  try:
+    d.cost(np.ones(4), 0)
+  except Exception as e:
+    return 'CDevice2 whose cumulative ranges stop before the horizon is accepted; cost raises %s' % type(e).__name__
+  return None
+
+
 if __name__ == '__main__':
   names = [a for a in sys.argv[2:]] or sorted(k for k in globals() if k[0] == 'd' and k[1:3].isdigit())
   bad = 0
